@@ -186,10 +186,11 @@ Proof.
   intros l' o' E. eapply upd_proxy_others; [|exact E|exact Hq].
   intros p p' o''. apply acknack_proxy_guid.
 Qed.
-Lemma writer_nackfrag_others : forall src rid s fs count w w' o, q (src ++ rid) = true ->
-  writer_nackfrag src rid s fs count w = Ok (w', o) -> rkeep (sw_proxies w') = rkeep (sw_proxies w).
+Lemma writer_nackfrag_others : forall src rid wid s fs count w w' o, q (src ++ rid) = true ->
+  writer_nackfrag src rid wid s fs count w = Ok (w', o) -> rkeep (sw_proxies w') = rkeep (sw_proxies w).
 Proof.
-  intros src rid s fs count w w' o Hq H. unfold writer_nackfrag in H.
+  intros src rid wid s fs count w w' o Hq H. unfold writer_nackfrag in H.
+  destruct (list_eqb _ _); [|inversion H; reflexivity].
   eapply with_rproxies_others; [exact H|].
   intros l' o' E. eapply upd_proxy_others; [|exact E|exact Hq].
   intros p p' o''. apply nackfrag_proxy_guid.
